@@ -279,3 +279,20 @@ fn k_collect_std_hashset() {
         core::mem::forget(s); core::mem::forget(cx);
     }
 }
+
+/// A RefLock whose contents are mutably borrowed (a leaked RefMut guard): tracing it must NOT return normally without having reported the
+/// pointer it holds (the crate panics; silently skipping the contents would let the collector free what the lock still points to).
+/// should_panic row: the harness ends without a panic exactly when trace returned and reported nothing.
+#[kani::proof]
+#[kani::should_panic]
+fn k_collect_reflock_mutably_borrowed() {
+    unsafe {
+        let cx = Context::new(); let mc = cx.mutation_context();
+        let g = mk(mc);
+        let v = RefLock::new(Some(g[0]));
+        core::mem::forget(v.as_ref_cell().borrow_mut());
+        let mut r = Rec::new(); v.trace(&mut r);
+        if seq(&r, &[a(g[0])], &[]) { panic!("reported: acceptable"); }
+        core::mem::forget(cx);
+    }
+}
